@@ -143,6 +143,10 @@ class C08Run(object):
                     logging.getLogger().removeHandler(h)
             logging.getLogger('circus').disabled = True
         try:
+            # SIGKILL is not synchronous: let the simulated death latency of
+            # workers that were already killed elapse before looking
+            if not w.sim.hung:
+                w.sim.advance(0.02)
             self.judge()
         finally:
             self.stats = {'steps': w.sim.steps, 'calls': w.sim.ncalls,
